@@ -72,6 +72,21 @@ def nesting(depth):
     yield "structlit", "struct S { x: int }\nfn main() -> int { let s: S = " + "S { x: " * depth + "1" + " }" * depth + "\n return 0 }\nshadow main { assert true }\n"
     yield "ifexpr", "fn main() -> int { let v: int = " + "if true { " * depth + "1" + " } else { 2 }" * depth + "\n return v }\nshadow main { assert true }\n"
     yield "matchnest", "union U { A { v: int } }\nfn main() -> int { let u: U = U.A { v: 1 }\n" + "match u { A(q) => { " * depth + "(println 1)" + " } }" * depth + "\n return 0 }\nshadow main { assert true }\n"
+    # products of two nesting kinds, each inside its own bound: parenthesised groups x infix operators per chain, with the
+    # inner group as the FIRST operand (the tree is then as deep as the product) or as the last one
+    if depth in (5, 100, 999):
+        ops = {5: 900, 100: 900, 999: 40}[depth]
+        chain = " + ".join(["1"] * ops)
+        first = last = "1"
+        for _ in range(depth):
+            first = "(" + first + " + " + chain + ")"
+            last = "(" + chain + " + " + last + ")"
+        yield "groups_x_chain_first", "fn main() -> int { return " + first + " }\nshadow main { assert true }\n"
+        yield "groups_x_chain_last", "fn main() -> int { return " + last + " }\nshadow main { assert true }\n"
+        acc = "p" + ".x" * ops
+        for _ in range(min(depth, 100)):
+            acc = "(f " + acc + ")" + ".x" * ops
+        yield "calls_x_fields", "fn main() -> int { return " + acc + " }\nshadow main { assert true }\n"
     if depth <= 50000:     # source size grows linearly (1.2 MB at 50000, ~10 tokens per level: under the token cap)
         yield "nested_fn", "".join("fn f%d(a: int) -> int {\n" % i for i in range(depth)) + "return a\n" + "}\n" * depth + "fn main() -> int { return 0 }\nshadow main { assert true }\n"
         yield "open_nested_fn", "".join("fn f%d(a: int) -> int {\n" % i for i in range(depth))
@@ -202,7 +217,7 @@ def gen_cases(tier):
         for ln in IDENT_LENGTHS:
             nm = ("n" + "abcdefghij" * (ln // 10 + 1))[:ln]
             yield "identlen:%s:%d" % (tname, ln), (tmpl.replace("@", nm) + IDENT_MAIN).encode()
-    for depth in (10, 31, 32, 33, 34, 100, 200, 500, 999, 1000, 1001, 2000, 50000, 200000):
+    for depth in (5, 10, 31, 32, 33, 34, 100, 200, 500, 999, 1000, 1001, 2000, 50000, 100000, 200000):
         for fam, text in nesting(depth):
             yield "nest:%s:%d" % (fam, depth), text.encode()
     # parser state must not accumulate across a long file: N complete constructs first, then a nest at the limit and far
@@ -391,7 +406,7 @@ def run(tier):
     ndir = os.path.join(work, "nest")
     os.makedirs(ndir, exist_ok=True)
     njobs = []
-    for depth in (10, 31, 32, 33, 34, 100, 200, 500, 999, 1000, 1001, 2000, 50000, 200000):      # the real tool also FREES what it parsed
+    for depth in (5, 10, 31, 32, 33, 34, 100, 200, 500, 999, 1000, 1001, 2000, 50000, 100000, 200000):      # the real tool also FREES what it parsed
         for fam, text in nesting(depth):
             pth = os.path.join(ndir, "%s_%d.nano" % (fam, depth))
             with open(pth, "w") as f:
